@@ -1292,8 +1292,15 @@ static void run_scoped_fd(const Case& c) {
           threw = true;
         }
         VCHECK(threw, "scoped-fd-bad-open", "open() of a missing file did not throw cannot_open_file");
-        model[a] = -1;
-        expect_closes(want, "open(missing file)");
+        if (!want.empty() && log_pos == log.events.size() && static_cast<int>(*slot[a]) == want[0]) {
+          // "close exactly once" does not say when: an open() that fails may release the old descriptor first (as in /repo) or keep
+          // owning it until a later close / destruction - then the model keeps it too
+          ctx().cls("scoped_fd:failed-open-keeps-the-old-descriptor");
+          expect_closes({}, "open(missing file)");
+        } else {
+          model[a] = -1;
+          expect_closes(want, "open(missing file)");
+        }
         break;
       }
       case S_CLOSE: {
